@@ -359,8 +359,11 @@ async def step(
             sim.schedule_step(next_step_tiered_time)
             sim.next_self_step = next_step_tiered_time
 
-    if sim.type == 'time-based':
-        assert next_step_time, "A time-based simulator must always return a next step"
+    elif sim.type == 'time-based':
+        raise SimulationError(
+            'A time-based simulator must always return a next step, but simulator '
+            f'"{sim.sid}" returned None for its step at time {sim.current_step.time}'
+        )
 
 
 def rt_check(
